@@ -235,6 +235,16 @@ def mon_cleanup(seq, ctx):
                                 return [fail("cleanup", "nick-left-in-channel", op, nick=n, chan=ch)]
                         if n in st.wallops:
                             return [fail("cleanup", "nick-left-in-wallops", op, nick=n)]
+                        # no trace at all: nothing in the live state may refer to a user that is gone
+                        # (e.g. an earlier nickname of the ended session)
+                        for wn in st.wallops:
+                            if wn not in st.users:
+                                return [fail("cleanup", "dangling-wallops-entry", op, nick=wn, ended=n)]
+                        for ch, C in st.chans.items():
+                            for _, k in RANKS:
+                                for rn in C.get(k, set()):
+                                    if rn not in st.users:
+                                        return [fail("cleanup", "dangling-rank-entry", op, nick=rn, chan=ch)]
                         # nothing else changes: other users keep everything
                         for m, u in prev.users.items():
                             if m != n and st.users.get(m) != u:
@@ -386,7 +396,8 @@ def mon_hidden(seq, ctx):
             cn = prev.conns.get(c)
             if cn and cn["auth"]:
                 me = cn["nick"]
-                mychans = prev.users.get(me, {}).get("chans", set())
+                # channels the requester is REALLY on: the channels' member maps are authoritative
+                mychans = {ch for ch, C in prev.chans.items() if me in C["members"]}
                 secret_out = {ch for ch, C in prev.chans.items() if "s" in C.get("flags", "") and me not in C["members"]}
                 outs = op.outs.get(c, [])
                 for l in outs:
@@ -410,7 +421,8 @@ def mon_hidden(seq, ctx):
                     if num in ("352", "311"):
                         nick = w[4] if num == "352" and len(w) > 4 else (w[0] if num == "311" else None)
                         u = prev.users.get(nick)
-                        if u and "i" in u["modes"] and nick != me and not (u["chans"] & mychans):
+                        theirs = {ch for ch, C in prev.chans.items() if nick in C["members"]}
+                        if u and "i" in u["modes"] and nick != me and not (theirs & mychans):
                             return [fail("hidden", "invisible-revealed-%s" % num, op, line=l)]
                 # NAMES <explicit secret channel>: must look like a non-existent channel (366)
                 if k == "NAMES":
